@@ -25,3 +25,10 @@ class Outer:
 
 class uses_nested_base(Outer.Nested):
     """A nested class as superclass: the stub imports it from a package that has no stub (recorded finding)."""
+
+
+from collections.abc import Callable  # noqa: E402
+
+
+class HasCallable:
+    callable_attr: Callable[[int], str]
